@@ -197,7 +197,15 @@ pub fn global_component_entities() -> Vec<u8> {
 
 fn entities_for_ref(v: RefV) -> Vec<u8> {
     match v {
-        RefV::IsGlobal | RefV::IsGlobalTyped => global_entities(),
+        RefV::IsGlobal => global_entities(),
+        // typed references to a blueprint's objects are component addresses in every native type
+        // (`Global<T>`), so component entity types come first (the minimal choice) and packages /
+        // resource managers, which the validation also admits, last
+        RefV::IsGlobalTyped => {
+            let mut v = global_component_entities();
+            v.extend(global_entities().into_iter().filter(|e| !global_component_entities().contains(e)));
+            v
+        }
         RefV::IsGlobalPackage => PACKAGE_ENTITIES.to_vec(),
         RefV::IsGlobalComponent => global_component_entities(),
         RefV::IsGlobalResourceManager => RESOURCE_MANAGER_ENTITIES.to_vec(),
